@@ -4,6 +4,7 @@ import (
 	"encoding/json"
 	"fmt"
 	"go/token"
+	"sort"
 	"strings"
 
 	"golang.org/x/tools/go/ssa"
@@ -56,9 +57,52 @@ func runC10(c *Checker) {
 	if _, _, _, st := checkFieldInvariant(c.P, opn, spec, true); st == "" {
 		useProof[opn] = lastFiExec
 	}
-	for _, fn := range []*ssa.Function{proc, cls} {
+	// the owners of the invariant are read off the code: every function that
+	// stores one of the three fields through its own receiver. Each of them is
+	// entered with the invariant (no owner is called by another owner or after
+	// a store of the caller's own, see below) and must re-establish it.
+	tracked := map[string]bool{"open": true, "blackoutIdx": true, "inBlackout": true}
+	storesTracked := func(fn *ssa.Function) (own, foreign bool) {
+		for _, b := range fn.Blocks {
+			for _, ins := range b.Instrs {
+				st, ok := ins.(*ssa.Store)
+				if !ok {
+					continue
+				}
+				fa, ok := st.Addr.(*ssa.FieldAddr)
+				if !ok || !strings.HasSuffix(fa.X.Type().String(), "scte35.state") || !tracked[fieldName(fa.X.Type(), fa.Field)] {
+					continue
+				}
+				if p, isParam := fa.X.(*ssa.Parameter); isParam && len(fn.Params) > 0 && p == fn.Params[0] {
+					own = true
+				} else {
+					foreign = true
+				}
+			}
+		}
+		return
+	}
+	var owners []*ssa.Function
+	isOwner := map[*ssa.Function]bool{}
+	bad := ""
+	libs := c.P.LibFuncs(false)
+	sort.Slice(libs, func(i, j int) bool { return libs[i].String() < libs[j].String() })
+	for _, fn := range libs {
+		own, foreign := storesTracked(fn)
+		if foreign {
+			bad = shortFn(fn) + " stores a tracked field of a tracker that is not its receiver"
+		}
+		if own {
+			owners = append(owners, fn)
+			isOwner[fn] = true
+		}
+	}
+	totalPaths := 0
+	for _, fn := range owners {
+		c.analysed[fn.String()] = true
 		paths, unch, fails, structural := checkFieldInvariant(c.P, fn, spec, true)
 		useProof[fn] = lastFiExec
+		totalPaths += paths
 		con := "assuming inBlackout ⇒ 0 ≤ blackoutIdx < len(open) at entry, it holds again at every return"
 		switch {
 		case structural != "":
@@ -67,40 +111,38 @@ func runC10(c *Checker) {
 			c.check("C10.invariant", shortFn(fn), con, false, fmt.Sprintf("%d of %d paths fail; first: %s", len(fails), paths, fails[0]))
 		default:
 			c.check("C10.invariant", shortFn(fn), con, paths > unch, fmt.Sprintf("no path stores the fields (%d paths)", paths))
-			c.floorCheck("C10.invariant paths walked in "+shortFn(fn), paths, 3)
 		}
 	}
-	// the invariant's other owners: only these methods store the three fields,
-	// nothing re-enters them, and a fresh state starts outside a blackout
-	{
-		owners := map[*ssa.Function]bool{proc: true, cls: true}
-		bad := ""
-		for _, fn := range c.P.LibFuncs(false) {
-			for _, b := range fn.Blocks {
-				for _, ins := range b.Instrs {
-					if st, ok := ins.(*ssa.Store); ok {
-						if fa, ok := st.Addr.(*ssa.FieldAddr); ok && strings.HasSuffix(fa.X.Type().String(), "scte35.state") {
-							switch fieldName(fa.X.Type(), fa.Field) {
-							case "open", "blackoutIdx", "inBlackout":
-								if !owners[fn] {
-									bad = shortFn(fn) + " stores " + fieldName(fa.X.Type(), fa.Field) + " at " + c.P.Pos(st.Pos())
-								}
-							}
-						}
-					}
-					if ci, ok := ins.(ssa.CallInstruction); ok {
-						if cal := ci.Common().StaticCallee(); cal != nil && owners[cal] {
-							bad = shortFn(fn) + " calls " + shortFn(cal) + " at " + c.P.Pos(ins.Pos())
-						}
-						if ci.Common().IsInvoke() && strings.HasSuffix(ci.Common().Value.Type().String(), "scte35.State") {
-							bad = shortFn(fn) + " invokes State." + ci.Common().Method.Name() + " at " + c.P.Pos(ins.Pos())
-						}
-					}
+	c.floorCheck("C10.invariant functions that store the tracked fields", len(owners), 2)
+	c.floorCheck("C10.invariant paths walked", totalPaths, 100)
+	// the non-storing methods get their uses of the open list proved the same way
+	for _, fn := range []*ssa.Function{proc, cls} {
+		if !isOwner[fn] {
+			if _, _, _, st := checkFieldInvariant(c.P, fn, spec, true); st == "" {
+				useProof[fn] = lastFiExec
+			}
+		}
+	}
+	// every owner is entered with the invariant: an owner is never called by an
+	// owner (whose own stores may be half done), nothing outside the tracker's
+	// methods stores the fields, and nothing calls back into the tracker
+	for _, fn := range libs {
+		for _, b := range fn.Blocks {
+			for _, ins := range b.Instrs {
+				ci, ok := ins.(ssa.CallInstruction)
+				if !ok {
+					continue
+				}
+				if cal := ci.Common().StaticCallee(); cal != nil && isOwner[cal] && isOwner[fn] {
+					bad = shortFn(fn) + " stores the tracked fields itself and calls " + shortFn(cal) + " at " + c.P.Pos(ins.Pos())
+				}
+				if ci.Common().IsInvoke() && strings.HasSuffix(ci.Common().Value.Type().String(), "scte35.State") {
+					bad = shortFn(fn) + " invokes State." + ci.Common().Method.Name() + " at " + c.P.Pos(ins.Pos())
 				}
 			}
 		}
-		c.check("C10.invariant", "scte35:(*state)", "only ProcessDescriptor and Close store open/blackoutIdx/inBlackout, and no library code calls back into the tracker", bad == "", bad)
 	}
+	c.check("C10.invariant", "scte35:(*state)", "open/blackoutIdx/inBlackout are stored only by methods through their own receiver, none of which calls another; no library code calls back into the tracker", bad == "", bad)
 
 	// ---- duplicate detection over the received ring
 	c.runStateDuplicates()
